@@ -506,7 +506,9 @@ class Outcome:
         """A RuntimeError raised directly by create_database/reindex_database."""
         if self.status != "exc" or not self.exc:
             return False
-        if self.exc["type"] != "RuntimeError":
+        # a deliberate refusal is a RuntimeError or an exception class of zorg's own;
+        # built-in error classes other than RuntimeError are internal failures
+        if self.exc["type"] != "RuntimeError" and not str(self.exc.get("module", "")).startswith("zorg"):
             return False
         # structural, not textual: the error comes out of the handlers module while
         # create_database / reindex_database is running (rewording the message or moving
@@ -525,7 +527,7 @@ def _exc_info(e: BaseException) -> dict:
         fn = fs.filename
         if "/zorg/" in fn:
             where.append([fn.split("/zorg/", 1)[1], fs.name])
-    return {"type": type(e).__name__, "msg": str(e)[:300], "where": where}
+    return {"type": type(e).__name__, "module": type(e).__module__, "msg": str(e)[:300], "where": where}
 
 
 ###############################################################################
